@@ -529,7 +529,8 @@ impl<'de, R: Read<'de>> Parser<R> {
                 self.eat_char();
                 let next = self.peek_or_null()?;
                 if next == 0 || is_delimiter(next) || is_sign_subsequent(next) {
-                    Token::Symbol(self.parse_symbol_suffix("-")?.into())
+                    let name = self.parse_symbol_suffix("-")?;
+                    self.symbol_token(name)
                 } else {
                     Token::Number(self.parse_num_token(false)?)
                 }
@@ -538,7 +539,8 @@ impl<'de, R: Read<'de>> Parser<R> {
                 self.eat_char();
                 let next = self.peek_or_null()?;
                 if next == 0 || is_delimiter(next) || is_sign_subsequent(next) {
-                    Token::Symbol(self.parse_symbol_suffix("+")?.into())
+                    let name = self.parse_symbol_suffix("+")?;
+                    self.symbol_token(name)
                 } else {
                     Token::Number(self.parse_num_token(true)?)
                 }
@@ -550,7 +552,7 @@ impl<'de, R: Read<'de>> Parser<R> {
                     // Only a token that is a numeric literal as a whole is a number.
                     match num_parser.parse_num_literal(10, true) {
                         Ok(token) if num_parser.peek()?.is_none() => Token::Number(token),
-                        _ => Token::Symbol(symbol.into()),
+                        _ => self.symbol_token(symbol),
                     }
                 } else {
                     Token::Number(self.parse_num_token(true)?)
@@ -592,7 +594,8 @@ impl<'de, R: Read<'de>> Parser<R> {
                     self.eat_char();
                     Token::Keyword(self.parse_symbol()?.into())
                 } else {
-                    Token::Symbol(self.parse_symbol()?.into())
+                    let name = self.parse_symbol()?;
+                    self.symbol_token(name)
                 }
             }
             b'a'..=b'z' | b'A'..=b'Z' => {
@@ -643,11 +646,13 @@ impl<'de, R: Read<'de>> Parser<R> {
                 if !c.is_alphabetic() {
                     return Err(self.peek_error(ErrorCode::ExpectedSomeValue));
                 }
-                Token::Symbol(self.parse_symbol_scratch_suffix()?.into())
+                let name = self.parse_symbol_scratch_suffix()?;
+                self.symbol_token(name)
             }
             _ => {
                 if SYMBOL_EXTENDED.contains(&peek) {
-                    Token::Symbol(self.parse_symbol()?.into())
+                    let name = self.parse_symbol()?;
+                    self.symbol_token(name)
                 } else {
                     let err = self.peek_error(ErrorCode::ExpectedSomeValue);
                     // Skip the offending byte, so that a caller that goes on
@@ -727,8 +732,7 @@ impl<'de, R: Read<'de>> Parser<R> {
                 self.remaining_depth += 1;
 
                 // TODO: more specific error
-                let datum =
-                    ret?.ok_or_else(|| self.peek_error(ErrorCode::EofWhileParsingList))?;
+                let datum = ret?.ok_or_else(|| self.peek_error(ErrorCode::EofWhileParsingList))?;
                 Value::list(vec![Value::symbol(name), datum])
             }
         };
@@ -830,12 +834,33 @@ impl<'de, R: Read<'de>> Parser<R> {
 
                 self.remaining_depth += 1;
 
-                let quoted =
-                    ret?.ok_or_else(|| self.peek_error(ErrorCode::EofWhileParsingList))?;
+                let quoted = ret?.ok_or_else(|| self.peek_error(ErrorCode::EofWhileParsingList))?;
                 Datum::quotation(name, quoted, Span::new(start, token_end))
             }
         };
         Ok(Some(syntax))
+    }
+
+    // A symbol token, which is a keyword if it ends with a colon and that
+    // keyword syntax is enabled.
+    fn symbol_token(&self, mut name: String) -> Token {
+        if self.options.keyword_syntax(KeywordSyntax::ColonPostfix)
+            && name.len() > 1
+            && name.ends_with(':')
+        {
+            name.pop();
+            Token::Keyword(name.into())
+        } else {
+            Token::Symbol(name.into())
+        }
+    }
+
+    fn symbol_value(&self, name: String) -> Value {
+        match self.symbol_token(name) {
+            Token::Keyword(name) => Value::Keyword(name),
+            Token::Symbol(name) => Value::Symbol(name),
+            _ => unreachable!(),
+        }
     }
 
     fn parse_symbol(&mut self) -> Result<String> {
@@ -942,7 +967,8 @@ impl<'de, R: Read<'de>> Parser<R> {
                                 pair.set_cdr(Value::from((Value::Nil, Value::Null)));
                                 pair = pair.cdr_mut().as_cons_mut().unwrap();
                             }
-                            pair.set_car(Value::symbol(self.parse_symbol_suffix(".")?));
+                            let name = self.parse_symbol_suffix(".")?;
+                            pair.set_car(self.symbol_value(name));
                             have_value = true;
                         }
                     }
@@ -1010,7 +1036,8 @@ impl<'de, R: Read<'de>> Parser<R> {
                                 pair = pair.cdr_mut().as_cons_mut().unwrap();
                                 meta = meta[1].cons_mut().unwrap();
                             }
-                            pair.set_car(Value::symbol(self.parse_symbol_suffix(".")?));
+                            let name = self.parse_symbol_suffix(".")?;
+                            pair.set_car(self.symbol_value(name));
                             meta[0] = SpanInfo::Prim(Span::new(start, self.read.position()));
                             have_value = true;
                         }
